@@ -102,6 +102,10 @@ GUARDS = {
     # reports the entry whose source side it did not load as (old path known, not versioned
     # in the source); InterDirStateTree reports the rename
     "generic_filter_half_record": True,
+    # bzr (C10): filter on an unchanged file below a renamed directory, include_unchanged:
+    # the generic code also reports the renamed parent, InterDirStateTree does not (without
+    # include_unchanged neither reports it)
+    "filter_unchanged_parent": True,
     # git: a commit whose changes name one path twice - as the source of a guessed copy /
     # rename and as a path that stays (modified file + new file with its old content), or a
     # file <-> symlink kind change (reported as delete + add) - records the right tree but
@@ -352,17 +356,30 @@ class MTree:
         return any(q and e[1] == DIR and self.dkind(q) in (FILE, LINK) and self.inv_below(q) for q, e in self.inv.items())
 
     def usable_filter(self, paths):
-        """The part of a path filter that does not run into a guarded defect."""
-        if self.flavour == "bzr" and "bzr_enotdir_filter" in self.guards:
-            out = []
-            for s in paths:
-                if any(self.dkind(a) == FILE for a in ancestors(s) if a):
-                    continue
-                if self.dkind(s) == FILE and any(strictly_inside(s, q) for q in list(self.basis) + list(self.inv)):
-                    continue
-                out.append(s)
-            return out
-        return list(paths)
+        """The part of a path filter that does not run into a guarded defect: a filter path
+        is dropped when it, or a path related to it through renames, or anything versioned
+        below those, lies below something that is a plain file on disk now."""
+        if not (self.flavour == "bzr" and "bzr_enotdir_filter" in self.guards):
+            return list(paths)
+        bids = self.basis_ids()
+        wids = {e[0]: q for q, e in self.inv.items()}
+        out = []
+        for s in paths:
+            reach = {s}
+            grew = True
+            while grew:
+                grew = False
+                for fid in set(bids) | set(wids):
+                    ps = [x for x in (bids.get(fid), wids.get(fid)) if x is not None]
+                    if any(inside(r, x) for r in reach for x in ps):
+                        for x in ps:
+                            if x not in reach:
+                                reach.add(x)
+                                grew = True
+            if any(self.dkind(a) == FILE for r in reach for a in ancestors(r) if a):
+                continue
+            out.append(s)
+        return out
 
     def guarded_state(self):
         if "git_enotdir" in self.guards and self.flavour == "git":
